@@ -169,15 +169,41 @@ def codeParts (acc : CParts) : Grp → CParts
   | .optional g rest =>
     codeParts { acc with opts := acc.opts ++ [assembleCode (codeParts ⟨.unit, [], []⟩ g)] } rest
   | .union a b rest =>
-    codeParts { acc with basic := joinP acc.basic
-      (.union (assembleCode (codeParts ⟨.unit, [], []⟩ a)) (assembleCode (codeParts ⟨.unit, [], []⟩ b))) } rest
+    let u := Pat.union (assembleCode (codeParts ⟨.unit, [], []⟩ a)) (assembleCode (codeParts ⟨.unit, [], []⟩ b))
+    codeParts { acc with basic := joinP acc.basic u } rest
   | .group g rest =>
     codeParts { acc with basic := joinP acc.basic (assembleCode (codeParts ⟨.unit, [], []⟩ g)) } rest
   | .filter e rest => codeParts { acc with filters := acc.filters ++ [e] } rest
 
-/-- the logical plan the translator produces for `{ g }` (a group of one element is that element:
-the general assembly gives the same plan) -/
-def transCode (g : Grp) : Pat := assembleCode (codeParts ⟨.unit, [], []⟩ g)
+def Grp.append : Grp → Grp → Grp
+  | .nil, r => r
+  | .triples t rest, r => .triples t (rest.append r)
+  | .optional g rest, r => .optional g (rest.append r)
+  | .union a b rest, r => .union a b (rest.append r)
+  | .group g rest, r => .group g (rest.append r)
+  | .filter e rest, r => .filter e (rest.append r)
+
+def isSingle : Grp → Bool
+  | .triples _ .nil => true
+  | .optional _ .nil => true
+  | .union _ _ .nil => true
+  | .group _ .nil => true
+  | .filter _ .nil => true
+  | _ => false
+
+/-- the parser hands back a group of exactly one element as that element; nested in another
+group, a lone FILTER or OPTIONAL thereby becomes a FILTER or OPTIONAL of the outer group -/
+def unwrapG : Grp → Grp
+  | .nil => .nil
+  | .triples t rest => .triples t (unwrapG rest)
+  | .optional g rest => .optional (unwrapG g) (unwrapG rest)
+  | .union a b rest => .union (unwrapG a) (unwrapG b) (unwrapG rest)
+  | .group g rest => if isSingle (unwrapG g) then (unwrapG g).append (unwrapG rest) else .group (unwrapG g) (unwrapG rest)
+  | .filter e rest => .filter e (unwrapG rest)
+
+/-- the logical plan the translator produces for `{ g }` (at the top, in a UNION branch and in an
+OPTIONAL a group of one element is translated on its own: the general assembly gives the same plan) -/
+def transCode (g : Grp) : Pat := assembleCode (codeParts ⟨.unit, [], []⟩ (unwrapG g))
 
 /-! ### as SPARQL 1.1 §18.2.2.6 says -/
 
@@ -199,8 +225,8 @@ def stdParts (acc : SParts) : Grp → SParts
   | .optional g rest =>
     stdParts { acc with pat := optJoinStd acc.pat (assembleStd (stdParts ⟨.unit, []⟩ g)) } rest
   | .union a b rest =>
-    stdParts { acc with pat := joinP acc.pat
-      (.union (assembleStd (stdParts ⟨.unit, []⟩ a)) (assembleStd (stdParts ⟨.unit, []⟩ b))) } rest
+    let u := Pat.union (assembleStd (stdParts ⟨.unit, []⟩ a)) (assembleStd (stdParts ⟨.unit, []⟩ b))
+    stdParts { acc with pat := joinP acc.pat u } rest
   | .group g rest => stdParts { acc with pat := joinP acc.pat (assembleStd (stdParts ⟨.unit, []⟩ g)) } rest
   | .filter e rest => stdParts { acc with filters := acc.filters ++ [e] } rest
 
@@ -578,8 +604,8 @@ def resolveKeys (cols : List Nat) : List (Nat × Bool) → Option (List (Nat × 
 
 def sortT (env : Env) (keys : List (Nat × Bool)) (t : Table) : Option Table :=
   (resolveKeys t.cols keys).map fun ks =>
-    { t with chunks := (chunksOf joinChunk (sortStable (fun a b => cmpRows env ks a b != .gt) t.rows)).map
-        (rebuild env t.cols.length) }
+    let sorted := sortStable (fun a b => cmpRows env ks a b != .gt) t.rows
+    { t with chunks := (chunksOf joinChunk sorted).map (rebuild env t.cols.length) }
 
 /-- `SkipOperator` -/
 def skipChunks (env : Env) (w : Nat) : Nat → List Chunk → List Chunk
@@ -666,7 +692,7 @@ def aggregateT (env : Env) (q : Count) (t : Table) : Option Table :=
       { cols := [q.alias], chunks := [allSel [[.int (countOf q.distinct argIdx rows)]]] }
     else
       let out := (groupKeys gidx rows).map fun k =>
-        k ++ [.int (countOf q.distinct argIdx (rows.filter fun r => (gidx.map fun i => r.getD i .null) == k))]
+        k ++ [Cell.int (countOf q.distinct argIdx (rows.filter fun r => (gidx.map fun i => r.getD i .null) == k))]
       { cols := q.groupBy ++ [q.alias]
         chunks := (chunksOf joinChunk out).map (aggChunk env (q.groupBy.length + 1)) }
 
@@ -835,6 +861,35 @@ def specCountRows (env : Env) (n : Nat) (G : List Triple) (q : Count) : List Cou
   if q.groupBy.isEmpty then [⟨[], specCountOf q sols⟩]
   else (specGroupKeys q.groupBy sols).map fun k =>
     ⟨k, specCountOf q (sols.filter fun μ => (q.groupBy.map μ.get) == k)⟩
+
+def cmpNat (desc : Bool) (a b : Nat) : Ordering :=
+  let o : Ordering := if a < b then .lt else if b < a then .gt else .eq
+  if desc then o.swap else o
+
+def cmpTerm (env : Env) (desc : Bool) (a b : Option Nat) : Ordering :=
+  let o : Ordering := if termLt env a b then .lt else if termLt env b a then .gt else .eq
+  if desc then o.swap else o
+
+def keyAt (q : Count) (r : CountRow) (v : Nat) : Option Nat :=
+  ((q.groupBy.zip r.key).find? fun vk => vk.1 == v).bind (·.2)
+
+def cmpCountRow (env : Env) (q : Count) (keys : List (Nat × Bool)) (a b : CountRow) : Ordering :=
+  match keys with
+  | [] => .eq
+  | (v, desc) :: rest =>
+    match (if v = q.alias then cmpNat desc a.count b.count else cmpTerm env desc (keyAt q a v) (keyAt q b v)) with
+    | .eq => cmpCountRow env q rest a b
+    | o => o
+
+def insertCR (le : CountRow → CountRow → Bool) (x : CountRow) : List CountRow → List CountRow
+  | [] => [x]
+  | y :: ys => if le y x then y :: insertCR le x ys else x :: y :: ys
+
+def specCount (env : Env) (n : Nat) (G : List Triple) (q : Count) : List CountRow :=
+  let rows := specCountRows env n G q
+  let sorted := if q.order.isEmpty then rows
+    else rows.foldl (fun acc x => insertCR (fun a b => cmpCountRow env q q.order a b != .gt) x acc) []
+  sliceOpt q.offset q.limit sorted
 
 def specInsert (set : List Triple) (t : Triple) : List Triple := if t ∈ set then set else set ++ [t]
 def specRemove (set : List Triple) (t : Triple) : List Triple := set.filter (· != t)
